@@ -21,21 +21,21 @@ import (
 func init() { Register(&Check{ID: "C07", Level: "exploration", Run: runC07}) }
 
 type c07Case struct {
-	OV       []string // original vesting per denom (denoms: uc4e, ubb)
-	Dur      int64    // vesting duration in seconds
-	Elapsed  int64    // seconds since vesting start (may be negative: not started)
-	Amount   []string // split amount per denom ("" = not split)
-	Deleg    string   // delegated vesting amount of uc4e ("" none)
-	Op       string   // split | move | movedenoms:<mask>
-	Second   string   // second split in the same block: "" | "s:<amt>" (from sender) | "r:<amt>" (from recipient)
-	Family   string
+	OV      []string // original vesting per denom (denoms: uc4e, ubb)
+	Dur     int64    // vesting duration in seconds
+	Elapsed int64    // seconds since vesting start (may be negative: not started)
+	Amount  []string // split amount per denom ("" = not split)
+	Deleg   string   // delegated vesting amount of uc4e ("" none)
+	Op      string   // split | move | movedenoms:<mask>
+	Second  string   // second split in the same block: "" | "s:<amt>" (from sender) | "r:<amt>" (from recipient)
+	Family  string
 }
 
 var c07Denoms = []string{harness.Denom, denomB}
 
 type c07Stats struct {
 	cases, succeeded, compensation, partial, delegated, multiDenom, chained int64
-	maxDrift                                                           int64
+	maxDrift                                                                int64
 }
 
 func bigOf(s string) sdk.Int { return mustInt(s) }
